@@ -199,8 +199,12 @@ Definition receive_packet (me : tid) (p : spk) : M unit :=
   | KClose => disconnect_core me true RServer ;;; ret tt
   | _ => ret tt
   end.
+(* the packets of one payload: handling stops once the connection has ended (fix D29) *)
 Fixpoint receive_all (me : tid) (l : list spk) : M unit :=
-  match l with [] => ret tt | p :: r => receive_packet me p ;;; receive_all me r end.
+  match l with
+  | [] => ret tt
+  | p :: r => s <- getst ;; match state s with Connected => receive_packet me p ;;; receive_all me r | _ => ret tt end
+  end.
 
 (* issuing requests *)
 Definition http_request (me : tid) (k : rkind) (body : list ck) : M hid :=
